@@ -148,13 +148,27 @@ def _grid_dataset(conv, shape, holes, fortran=False):
     raise ValueError(conv)
 
 
-def body_clip_grid(ctx, conv, shape, holes, buffer, fortran=False):
+def body_clip_grid(ctx, conv, shape, holes, buffer, fortran=False, history=False):
     ds, convention = _grid_dataset(conv, shape, holes, fortran)
     from harness import geomref
     geomref.check(ctx, ds, convention, kind=conv)
     ny, nx = shape
     polygons = convention.polygons            # concrete coordinates: real shapely
     has_poly = [p is not None for p in polygons]
+    earlier = None
+    if history:
+        # an earlier mask made from the same convention object for another geometry: the next one owes it nothing,
+        # and the earlier mask stays what it was
+        pre = [ctx.bool(f'pre{n}') if has_poly[n] else False for n in range(ny * nx)]
+        if ctx.symbolic:
+            convention.__dict__['strtree'] = geo.StubTree(polygons, {n: pre[n] for n in range(ny * nx) if has_poly[n]})
+            first = geo.SymClip(polygons, pre, False, True)
+        else:
+            first = geo.realise_hits(polygons, [n for n in range(ny * nx) if has_poly[n] and pre[n]])[0]
+        earlier = convention.make_clip_mask(first, buffer=0)
+        earlier_copy = {n: numpy.array(earlier[n].values, copy=True) for n in earlier.data_vars}
+        if ctx.symbolic:
+            del convention.__dict__['strtree']
     hits = [ctx.bool(f'hit{n}') if has_poly[n] else False for n in range(ny * nx)]
     # does the geometry cover the whole dataset?  if so it intersects every cell that has a polygon
     covers_all = ctx.bool('covers_all')
@@ -174,6 +188,10 @@ def body_clip_grid(ctx, conv, shape, holes, buffer, fortran=False):
         clips = geo.of_dimension(clips, areal)
     for clip in clips:
         _check_clip_grid(ctx, conv, shape, convention, clip, buffer, hits, tree if ctx.symbolic else None)
+    if earlier is not None:
+        ctx.check(all(numpy.array_equal(earlier[n].values, earlier_copy[n]) for n in earlier_copy),
+                  'a mask handed out earlier is not rewritten by later calls')
+        ctx.check(all(bool(m) == h for m, h in zip(convention.mask, has_poly)), "the convention's validity mask is untouched by clipping")
 
 
 def _check_clip_grid(ctx, conv, shape, convention, clip, buffer, hits, tree):
@@ -187,6 +205,7 @@ def _check_clip_grid(ctx, conv, shape, convention, clip, buffer, hits, tree):
     name = 'face_mask' if conv == 'shoc_standard' else 'cell_mask'
     cell = mask[name].values
     ctx.check(cell.shape == (ny, nx), 'cell mask shape is the face grid shape')
+    ctx.check(all(v.dtype == numpy.dtype(bool) for v in mask.data_vars.values()), 'masks are boolean arrays (marked or not, nothing else)')
     ctx.check(tuple(mask[name].dims) == tuple(convention.grid_dimensions[convention.default_grid_kind]),
               'cell mask dimensions are the face grid dimensions in order')
     for j in range(ny):
@@ -363,6 +382,11 @@ def cases(tier):
             yield Case(f'clipgrid:{conv}:{shape[0]}x{shape[1]}:holes{hs}:buf{buffer}', body_clip_grid,
                        dict(conv=conv, shape=shape, holes=holes, buffer=buffer),
                        split=(32 if shape[0] * shape[1] >= 9 else 0), max_paths=10000)
+    for conv, shape, holes in (('shoc_standard', (2, 2), ()), ('cf2d', (2, 2), ((0, 1),)), ('cf1d', (2, 2), ())):
+        for buffer in (0, 1):
+            hs = '-'.join(f'{a}.{b}' for a, b in holes) or 'none'
+            yield Case(f'clipgrid:{conv}:{shape[0]}x{shape[1]}:holes{hs}:buf{buffer}:after-another-clip', body_clip_grid,
+                       dict(conv=conv, shape=shape, holes=holes, buffer=buffer, history=True), max_paths=20000, split=16)
     for buffer in (0, 1):
         yield Case(f'clipgrid:shoc_standard:2x3:holesnone:buf{buffer}:column-major', body_clip_grid,
                    dict(conv='shoc_standard', shape=(2, 3), holes=(), buffer=buffer, fortran=True), max_paths=10000)
